@@ -551,6 +551,12 @@ class Models:
                         # same piece structure, different literal: for Fmt-separated names this decides inequality
                         # only when literals are at the same position and differ
                         return self._regex_differs(lp, rp)
+                elif isinstance(a, ReprOf):
+                    c = self.equals(a.val, b.val)  # repr is injective on bytes / ints
+                    if c is False:
+                        return False
+                    if c is not True:
+                        conds.append(zbool(c))
                 elif isinstance(a, Fmt):
                     if a.spec != b.spec:
                         ok = False
@@ -976,6 +982,22 @@ class Models:
             rec["fields"][name] = v
             self.st.record_write((obj.id, name))
             self.st.trace.append(("set", obj.id, name))
+            mon = self.st.ghost.get("monitor")
+            if mon is not None and self.st.ghost.get("monitor_obj") == obj.id:
+                mon.on_store(self.ex, obj, name, None, v)
+            return
+        if isinstance(name, SStr) and not any(isinstance(p_, Fmt) for p_ in name.pieces):
+            # a name known only by its literal prefix (configuration keys): allowed when it cannot collide with
+            # an attribute of the class or a private field
+            lead = name.pieces[0] if isinstance(name.pieces[0], str) else ""
+            if not lead:
+                raise Unsupported(f"attribute store with unknown name {name}")
+            for cname in list(self.class_names(cls)) + [f for f in rec["fields"] if f.startswith("_")]:
+                if cname.startswith(lead) or lead.startswith(cname):
+                    raise Unsupported(f"symbolic attribute name {name} may collide with {cname}")
+            rec.setdefault("symfields", []).append((name, v))
+            self.st.record_write((obj.id, lead + "*"))
+            self.st.trace.append(("setsym", obj.id, lead))
             return
         if isinstance(name, SStr):
             # family store: literal base + Fmt index pieces
@@ -988,8 +1010,11 @@ class Models:
                     raise Unsupported(f"symbolic attribute name {name} may alias field {fname}")
             fam = rec.setdefault("fam", {})
             fam.setdefault(base, []).append((idx, v, list(self.st.ghost.get("loopguard", []))))
-            self.st.record_write((obj.id, base))
+            self.st.record_write((obj.id, base[0] + "_NN"))
             self.st.trace.append(("setfam", obj.id, base, idx))
+            mon = self.st.ghost.get("monitor")
+            if mon is not None and self.st.ghost.get("monitor_obj") == obj.id:
+                mon.on_store(self.ex, obj, base[0], idx, v)
             return
         self.raise_(TypeError, "attribute name must be string")
 
@@ -1000,18 +1025,42 @@ class Models:
         return names
 
     def family_key(self, name: SStr):
-        pieces = name.pieces
-        if not isinstance(pieces[0], str):
+        """attribute name built as base + ("_" + two-digit index)+  ->  ((base, arity), index tuple)"""
+        import re as _re
+        pieces = list(name.pieces)
+        if not pieces or not isinstance(pieces[0], str):
             raise Unsupported(f"attribute name without literal base: {name}")
-        base = pieces[0]
         idx = []
+        base = None
+        pending = pieces[0]
         for p in pieces[1:]:
             if isinstance(p, Fmt) and p.spec == "02d":
+                if not pending.endswith("_"):
+                    raise Unsupported(f"attribute name shape {name}")
+                head = pending[:-1]
+                if base is None:
+                    # literal head may itself carry concrete indices, e.g. "cno_03_"
+                    m = _re.fullmatch(r"(.*?)((?:_\d\d+)*)", head)
+                    base = m.group(1)
+                    idx += [int(x) for x in m.group(2).split("_")[1:]] if m.group(2) else []
+                else:
+                    m = _re.fullmatch(r"((?:_\d\d+)*)", head)
+                    if m is None:
+                        raise Unsupported(f"attribute name shape {name}")
+                    idx += [int(x) for x in head.split("_")[1:]] if head else []
                 idx.append(p.e)
-            elif isinstance(p, str) and p == "_":
-                continue
+                pending = ""
+            elif isinstance(p, str):
+                pending += p
             else:
                 raise Unsupported(f"attribute name shape {name}")
+        if pending:
+            m = _re.fullmatch(r"((?:_\d\d+)+)", pending)
+            if m is None or base is None:
+                raise Unsupported(f"attribute name shape {name}")
+            idx += [int(x) for x in pending.split("_")[1:]]
+        if base is None or not base:
+            raise Unsupported(f"attribute name shape {name}")
         return (base, len(idx)), tuple(idx)
 
     def del_attr(self, obj, name):
@@ -1237,7 +1286,7 @@ class Models:
             return self.int_method(recv, name, args, kwargs)
         if is_byteslike(recv) and (isinstance(recv, SBytes) or any(map(is_symv, args))):
             return self.bytes_method(to_rope(recv), name, args, kwargs)
-        if isinstance(recv, SStr) or (isinstance(recv, str) and any(map(is_symv, args))):
+        if isinstance(recv, SStr) or (isinstance(recv, str) and not all(deep_concrete(a) for a in args)):
             return self.str_method(recv, name, args, kwargs)
         if isinstance(recv, SFloat):
             raise Unsupported(f"float.{name}")
@@ -1437,8 +1486,8 @@ class Models:
             if errors == "strict":
                 raise Unsupported("strict encode of symbolic str")
             return rope
-        if name == "format":
-            return SStr((Opaque("format"),))
+        if name in ("format", "join"):
+            return SStr((Opaque(name),))
         raise Unsupported(f"str.{name}")
 
     # -- formatting
@@ -1454,7 +1503,11 @@ class Models:
                 return format(val, spec)
             except Exception as e:
                 self.raise_(type(e), str(e))
+        if isinstance(val, SBytes) and spec == "":
+            return ReprOf(val)
         if isinstance(val, (SInt,)) and not val.isbool:
+            if spec == "" and conv in (-1, 114, 115):
+                return ReprOf(val)
             if conv == -1 and spec in ("02d", "03d", "d", ""):
                 return Fmt(val.e, spec or "d")
             if conv == -1 and spec and spec[-1] in "xXdob" and spec[:-1].isdigit() or spec in ("x", "X"):
@@ -1710,6 +1763,9 @@ class Models:
             self.raise_(type(e), str(e))
 
     def b_range(self, *args):
+        for a in args:
+            if not self.is_int(a):
+                self.raise_(TypeError, f"'{self.pytype(a).__name__}' object cannot be interpreted as an integer")
         if any(is_symv(a) for a in args):
             if len(args) == 1:
                 return SymRange(0, args[0])
@@ -1803,6 +1859,17 @@ class Models:
             self.raise_(struct.error, f"unpack requires a buffer of {n} bytes")
         total = z3.Sum([data.at(k) * (1 << (8 * k)) for k in range(n)])
         return (SFloat(unpack_f(z3.IntVal(n), total), shape=("unpack", n, total)),)
+
+
+class ReprOf:
+    """piece of SStr: repr()/str() of a symbolic bytes or int value (what an f-string interpolates)"""
+    __slots__ = ("val",)
+
+    def __init__(self, val):
+        self.val = val
+
+    def __repr__(self):
+        return f"ReprOf({self.val!r})"
 
 
 class HexInt:
